@@ -555,7 +555,10 @@ class ExprMixin:
             if kind in self.container_models:
                 return self.container_models[kind].getitem(self, st, o, k)
         if isinstance(o, tuple) and isinstance(k, int):
-            return [("val", o[k], st)]
+            try:
+                return [("val", o[k], st)]
+            except IndexError:
+                return self.raise_ext(st, "IndexError", "tuple index out of range")
         if isinstance(o, (ClassRef, ExtRef)):  # generic alias: InvokeConfig[P, R], MutableMapping[str, Any]
             return [("val", o, st)]
         raise Unsupported(f"subscript {o!r}[{k!r}]")
